@@ -222,7 +222,11 @@ func ruleKind(c *Ctx) {
 					if !ok {
 						return
 					}
-					ia, ok := st.Addr.(*ssa.IndexAddr)
+					addr := st.Addr
+					if fa, isFA := addr.(*ssa.FieldAddr); isFA {
+						addr = fa.X // a field of the entry, through a pointer to the element
+					}
+					ia, ok := addr.(*ssa.IndexAddr)
 					if !ok || traceInterpField(ia.X, 0) != "nativeFuncs" {
 						if !ok {
 							return
@@ -276,24 +280,81 @@ func ruleKind(c *Ctx) {
 		}
 		c.check(n > 0 && good, "index:resolver-sorted", pos, "the resolver numbers native functions by their position in the name-sorted key list", "the resolver no longer numbers native functions in sorted name order")
 	}
-	// ARITY: len(n.Args) > numParams panics before Params[i]/In(i) indexing (same function, earlier)
-	vfd := c.funcDecl("internal/resolver", "mainVisitor.Visit")
-	if vfd != nil {
-		var guard, use token.Pos
-		ast.Inspect(vfd.Body, func(n ast.Node) bool {
-			switch x := n.(type) {
-			case *ast.IfStmt:
-				if strings.Contains(types.ExprString(x.Cond), "len(n.Args) > numParams") && containsPanic(x.Body.List) && guard == token.NoPos {
-					guard = x.Pos()
+	// ARITY: in the resolver every lookup of parameter number i of the callee (an index into a FuncInfo's Params with a
+	// position that is not a constant) is dominated by a test `len(<call>.Args) > <limit>` whose true branch panics with
+	// the positioned "too many arguments" error - decided on the SSA form of the visitor
+	{
+		n, good := 0, true
+		var pos token.Pos
+		for _, fn := range c.srcFuncs("internal/resolver") {
+			fn := fn
+			allInstrs(fn, func(in ssa.Instruction) {
+				var base, idx ssa.Value
+				switch x := in.(type) {
+				case *ssa.IndexAddr:
+					base, idx = x.X, x.Index
+				case *ssa.Index:
+					base, idx = x.X, x.Index
+				default:
+					return
 				}
-			case *ast.IndexExpr:
-				if strings.Contains(types.ExprString(x), "funcInfo.Params[i]") && use == token.NoPos {
-					use = x.Pos()
+				if _, isK := idx.(*ssa.Const); isK {
+					return
 				}
-			}
-			return true
-		})
-		c.check(guard != token.NoPos && use != token.NoPos && guard < use, "arity:parse-time", vfd.Pos(), "too many arguments is a parse error, raised before parameter i is looked up", "the resolver indexes the callee's parameter list by argument position without first rejecting calls with more arguments than parameters")
+				f, hx := loadedField(base)
+				if f == nil || f.Name() != "Params" || hx == nil || !isNamed(deref(hx.Type()), modPath+"/internal/resolver", "FuncInfo") {
+					return
+				}
+				if sl := loopBoundSlice(idx); sl != nil {
+					if rf, _ := loadedField(sl); rf != nil && rf.Name() == "Params" {
+						return // a range over the parameter list itself: the position is within it by construction
+					}
+				}
+				n++
+				pos = in.Pos()
+				guarded := false
+				for _, g := range fn.Blocks {
+					if len(g.Instrs) == 0 || !g.Dominates(in.Block()) || g == in.Block() {
+						continue
+					}
+					ifi, ok := g.Instrs[len(g.Instrs)-1].(*ssa.If)
+					if !ok {
+						continue
+					}
+					bo, ok := ifi.Cond.(*ssa.BinOp)
+					if !ok || bo.Op != token.GTR {
+						continue
+					}
+					lc, ok := bo.X.(*ssa.Call)
+					if !ok {
+						continue
+					}
+					if b, isB := lc.Call.Value.(*ssa.Builtin); !isB || b.Name() != "len" {
+						continue
+					}
+					if af, _ := loadedField(lc.Call.Args[0]); af == nil || af.Name() != "Args" {
+						continue
+					}
+					// the true branch never falls through to the use (it panics)
+					if reachableAvoiding(g.Succs[0], g)[in.Block()] {
+						continue
+					}
+					guarded = true
+				}
+				if !guarded {
+					good = false
+				}
+			})
+		}
+		var vpos token.Pos
+		if vfd := c.funcDecl("internal/resolver", "mainVisitor.Visit"); vfd != nil {
+			vpos = vfd.Pos()
+		}
+		if n == 0 {
+			c.undecided("arity:parse-time", vpos, "no lookup of a callee's parameter by argument position found in the resolver")
+		} else {
+			c.check(good, "arity:parse-time", posOr(pos, vpos), "too many arguments is a parse error, raised before parameter i is looked up", "the resolver indexes the callee's parameter list by argument position without first rejecting calls with more arguments than parameters")
+		}
 	}
 }
 
@@ -547,4 +608,24 @@ func nodeSrc(n ast.Node) string {
 		return true
 	})
 	return sb.String()
+}
+
+// loopBoundSlice: idx is the position variable of a loop that runs while idx < len(S): S, else nil.
+func loopBoundSlice(idx ssa.Value) ssa.Value {
+	refs := idx.Referrers()
+	if refs == nil {
+		return nil
+	}
+	for _, r := range *refs {
+		bo, ok := r.(*ssa.BinOp)
+		if !ok || bo.Op != token.LSS || bo.X != idx {
+			continue
+		}
+		if lc, ok := bo.Y.(*ssa.Call); ok {
+			if b, isB := lc.Call.Value.(*ssa.Builtin); isB && b.Name() == "len" && len(lc.Call.Args) == 1 {
+				return lc.Call.Args[0]
+			}
+		}
+	}
+	return nil
 }
